@@ -1837,7 +1837,9 @@ class CParser:
                 # The type name is already parsed; hand it to the postfix
                 # level instead of resetting and parsing it a second time
                 # (re-parsing doubles the work at every nesting level).
-                return self._parse_postfix_expression(paren_type=typ)
+                return self._parse_postfix_expression(
+                    paren_type=typ, paren_coord=self._tok_coord(lparen_tok)
+                )
             else:
                 expr = self._parse_cast_expression()
                 return c_ast.Cast(typ, expr, self._tok_coord(lparen_tok))
@@ -1883,32 +1885,35 @@ class CParser:
     # BNF: postfix_expression   : primary_expression postfix_suffix*
     #                           | '(' type_name ')' '{' initializer_list ','? '}'
     def _parse_postfix_expression(
-        self, paren_type: Optional[c_ast.Typename] = None
+        self,
+        paren_type: Optional[c_ast.Typename] = None,
+        paren_coord: Optional[Coord] = None,
     ) -> c_ast.Node:
         # paren_type is a '(' type_name ')' already consumed by the caller,
-        # which has also seen that a '{' follows.
+        # which has also seen that a '{' follows; paren_coord locates its '('.
+        if paren_type is None:
+            result = self._try_parse_paren_type_name()
+            if result is not None:
+                typ, mark, lparen_tok = result
+                # Disambiguate between casts and compound literals:
+                #   (int) x   -> cast
+                #   (int) {1} -> compound literal
+                if self._peek_type() == "LBRACE":
+                    paren_type = typ
+                    paren_coord = self._tok_coord(lparen_tok)
+                else:
+                    self._reset(mark)
+
         if paren_type is not None:
             self._expect("LBRACE")
             init = self._parse_initializer_list()
             self._accept("COMMA")
             self._expect("RBRACE")
-            return c_ast.CompoundLiteral(paren_type, init)
-
-        result = self._try_parse_paren_type_name()
-        if result is not None:
-            typ, mark, _ = result
-            # Disambiguate between casts and compound literals:
-            #   (int) x   -> cast
-            #   (int) {1} -> compound literal
-            if self._accept("LBRACE"):
-                init = self._parse_initializer_list()
-                self._accept("COMMA")
-                self._expect("RBRACE")
-                return c_ast.CompoundLiteral(typ, init)
-            else:
-                self._reset(mark)
-
-        expr = self._parse_primary_expression()
+            # A compound literal is a postfix expression like any other and
+            # can be subscripted, called, or have a member selected.
+            expr: c_ast.Node = c_ast.CompoundLiteral(paren_type, init, paren_coord)
+        else:
+            expr = self._parse_primary_expression()
         while True:
             if self._accept("LBRACKET"):
                 sub = self._parse_expression()
